@@ -47,6 +47,8 @@ def ref_sw(A, B, M):
 def gen_pair(rng, tier):
     top = 25 if tier == "quick" else 40
     m, n = (int(rng.integers(0, top + 1)) for _ in range(2))
+    if rng.random() < 0.015:        # sizes around and above 128 / 256
+        m, n = int(rng.choice([127, 128, 129, 200, 256, 257, 300])), int(rng.integers(100, 301))
     if rng.random() < 0.1:
         m, n = [(0, 0), (0, 3), (4, 0), (1, 1), (1, 2)][int(rng.integers(0, 5))]
     scale = float(rng.choice([1e-3, 0.1, 1, 1, 1, 10, 1e3]))
